@@ -138,12 +138,12 @@ def truncated_svd(
 
     # NOTE: Special case: M = zero -> rank is 1
     if batch:
-        if svd[1].max() < 1e-13:
+        if svd[1].max() == 0:
             return torch.zeros(
                 [batch_size, M.shape[1], 1], dtype=M.dtype, device=M.device
             ), torch.zeros([batch_size, 1, M.shape[2]], dtype=M.dtype, device=M.device)
     else:
-        if svd[1][0] < 1e-13:
+        if svd[1][0] == 0:
             return torch.zeros(
                 [M.shape[0], 1], dtype=M.dtype, device=M.device
             ), torch.zeros([1, M.shape[1]], dtype=M.dtype, device=M.device)
